@@ -151,6 +151,7 @@ func runZoo(args []string) {
 	rep.Rule = "systematic sweep: every value of a zoo of ~150 Go values (every kind, nil and typed-nil values, pointers to nil maps, nil embedded struct " +
 		"pointers, recursive embedded types, unexported fields, foreign same-named types, channels, funcs, arrays, ...) in every argument position of Prepare, DB.Query, " +
 		"Query.Get, Query.GetAll, Iterator.Get over 13 statements, one position varied at a time plus random pairs; plus random queries (incl. raw bytes) with random zoo samples; " +
+		"every call on a pool of one connection and followed by an ordinary call under a deadline; " +
 		"outcome must be a returned error or success, never a panic, fatal error or hang; non-trivial = the call reached sqlair with a non-standard value; distinct by case description"
 	r := rng.New(*seed)
 	vz := valueZoo()
